@@ -60,6 +60,13 @@ def run(tier):
         s, k, feats = MI.gen_marker(rng, depth=3, leaves=rng.randint(1, 4 if tier == "quick" else 6))
         if it % 6 == 4:      # clauses on the interpreter version only: bounds that leave gaps, touch and overlap
             s, k, feats = MI.gen_marker(rng, depth=2, leaves=rng.randint(2, 4), focus=["pv", "pfv"])
+        if it % 6 == 3:      # the two interpreter variables in different groups: they meet only under distribution
+            s, k = MI.gen_cross_python_marker(rng), 4; R.count("cross_group_python_cases")
+        if it % 12 == 9:     # two-component literals of python_full_version: the text is padded, its meaning must be the marker's
+            s, k = rng.choice(['python_full_version ~= "3.8"', 'python_full_version ~= "3.8" and sys_platform == "linux"',
+                               'python_full_version ~= "3.10" or os_name == "nt"', 'python_full_version >= "3.8" and python_full_version < "3.10"',
+                               'python_full_version == "3.9" or sys_platform == "win32"']), 3
+            R.count("padded_full_version_cases")
         if it % 6 == 5:      # a contradictory or always-true group among ordinary clauses
             s, k = MI.gen_degenerate_marker(rng), 3; R.count("degenerate_group_cases")
         s2, _, _ = MI.gen_marker(rng, depth=2, leaves=rng.randint(1, 2))
